@@ -241,7 +241,18 @@ def check_lens(obj, tree, npath):
 
 # ---------------------------------------------------------------------------------------------- part 2: connect
 def derive(tree, k, pattern):
-    """k effective descriptions with exactly one output per leaf"""
+    """k effective descriptions with exactly one output per leaf -- except in the `idle-*` patterns, where every second
+    port member (odd / even ordinals) is an input on ALL interfaces (no output at all) and the others have one output"""
+    if pattern.startswith("idle"):
+        ports = list(R.port_dirs(tree))
+        par = 1 if pattern == "idle-odd" else 0
+        driven = [p for i, p in enumerate(ports) if i % 2 != par]
+        owner = {p: n % k for n, p in enumerate(driven)}
+        xs = []
+        for j in range(k):
+            base = R.reorder(R.subflip(tree)) if j % 2 else tree
+            xs.append(R.orient(base, lambda p, j=j: "o" if owner.get(p) == j else "i"))
+        return xs
     if pattern == "self":
         xs = [tree, R.flip_top(tree)]
         if k == 3:
@@ -267,13 +278,18 @@ VARIATIONS = {
     "k3:rr:const": (3, "rr", ("flip", "plain", "plain"), 1),
     "k2:rr": (2, "rr", ("plain", "plain"), None),
     "k3:rr:b": (3, "rr", ("flip", "plain", "flip"), None),
+    # leaves that are inputs on every interface (nothing to connect for them, but width / init must still agree)
+    "k2:idle-odd": (2, "idle-odd", ("plain", "flip"), None),
+    "k3:idle-even": (3, "idle-even", ("flipped", "plain", "flip"), None),
+    "k2:idle-even": (2, "idle-even", ("plain", "plain"), None),
 }
-QUICK_VARS = ["k2:T+T.flip", "k2:T+flipped(T)", "k3:rr", "k2:T+T.flip:const", "k2:rr"]
+QUICK_VARS = ["k2:T+T.flip", "k2:T+flipped(T)", "k3:rr", "k2:T+T.flip:const", "k2:rr", "k2:idle-odd", "k3:idle-even"]
+IDLE_MIN_PORTS = 2       # an idle-* tuple needs one driven and one all-input port member
 
 
 class Tuple_:
     """k realized interfaces + oracle view of them"""
-    def __init__(self, xs, modes):
+    def __init__(self, xs, modes, allow_idle=False):
         self.xs = xs
         self.k = len(xs)
         self.ifaces = [realize(x, modes[j], f"i{j}") for j, x in enumerate(xs)]
@@ -284,8 +300,10 @@ class Tuple_:
         for p in self.paths:
             assert all(set(lv) == set(self.paths) for lv in self.lv), "harness: bad tuple"
             outs = [j for j in range(self.k) if self.lv[j][p][1] == "o"]
-            assert len(outs) == 1, "harness: bad tuple"
-            self.owner[p] = outs[0]
+            assert len(outs) == 1 or (allow_idle and not outs), "harness: bad tuple"
+            self.owner[p] = outs[0] if outs else None         # None: input on every interface
+        self.idle = [p for p in self.paths if self.owner[p] is None]
+        assert not allow_idle or (self.idle and len(self.idle) < len(self.paths)), "harness: idle tuple without both kinds"
 
     def leaf_values(self):
         from amaranth.hdl import Value
@@ -347,6 +365,8 @@ def expected_map(tp, consts):
     want = set()
     for p in tp.paths:
         o = tp.owner[p]
+        if o is None:
+            continue          # no output anywhere: no connection at all is made for this leaf
         for j in range(tp.k):
             if j == o or (j, p) in consts:
                 continue
@@ -377,7 +397,7 @@ def simulate(frag, tp, vals, consts, out):
                     errs.append(f"input i{j}{list(p)} = {got} at rest, its output holds {expect_idle(p)}")
         for p in tp.paths:
             o = tp.owner[p]
-            if (o, p) in consts:
+            if o is None or (o, p) in consts:
                 continue
             w, sg, iv = tp.info[p]
             osig = vals[o][p]
@@ -421,11 +441,18 @@ def part_connect(tree, out, variations, all_perm_sims=False):
         k, pattern, modes, cpat = VARIATIONS[vname]
         if pattern == "rr" and len(R.port_dirs(tree)) < 1:
             continue
+        idle = pattern.startswith("idle")
+        if idle and len(R.port_dirs(tree)) < IDLE_MIN_PORTS:
+            out.add("idle_tuples_skipped_single_port")
+            continue
         out.add("evaluations")
         out.add("tuples")
         step = "create"
         try:
-            tp = Tuple_(derive(tree, k, pattern), modes)
+            tp = Tuple_(derive(tree, k, pattern), modes, allow_idle=idle)
+            if idle:
+                out.add("idle_tuples")
+                out.add("idle_leaves", len(tp.idle))
             consts = apply_consts(tp, cpat) if cpat is not None else {}
             out.add("constant_leaves", len(consts))
             vals = tp.leaf_values()
@@ -472,36 +499,51 @@ def part_connect(tree, out, variations, all_perm_sims=False):
 
 
 # ---------------------------------------------------------------------------------------------- part 3: corruptions
-def corruptions(tp_xs):
-    """all single-point corruptions of the tuple of descriptions xs: (kind, j, where, tree-edit or object-edit)"""
+def corruptions(tp_xs, only_idle=False):
+    """all single-point corruptions of the tuple of descriptions xs: (kind, j, where, tree-edit or object-edit).
+    only_idle: just the width / init corruptions (`idle-width`, `idle-init`, `idle-obj-width`, `idle-obj-init`) of the
+    port members that are inputs on every interface -- connect() makes no connection for them but must still reject
+    a width or initial-value mismatch. (A second output, a constant or a port dimension change on such a leaf is not
+    an error named by the statement, so none is demanded.)"""
     out = []
     k = len(tp_xs)
+    driven = set()
+    for x in tp_xs:
+        driven |= {p for p, d in R.port_dirs(x).items() if d == "o"}
+    pre = "idle-" if only_idle else ""
     for j, x in enumerate(tp_xs):
         dirs = R.port_dirs(x)
         for np_ in R.node_paths(x):
             n = R.get_node(x, np_)
-            out.append(("missing", j, np_, None, ("tree", R.edit(x, np_, lambda n: None))))
-            for alt in DIM_ALTS[tuple(n["d"])]:
-                out.append(("dims", j, np_, list(alt), ("tree", R.edit(x, np_, lambda n, alt=alt: dict(n, d=list(alt))))))
+            if only_idle and (n["k"] != "p" or np_ in driven):
+                continue
+            if not only_idle:
+                out.append(("missing", j, np_, None, ("tree", R.edit(x, np_, lambda n: None))))
+                for alt in DIM_ALTS[tuple(n["d"])]:
+                    out.append(("dims", j, np_, list(alt), ("tree", R.edit(x, np_, lambda n, alt=alt: dict(n, d=list(alt))))))
             if n["k"] != "p":
                 continue
             w, sg, iv = R.shape_info(n["s"], n["i"])
-            out.append(("width", j, np_, None,
+            out.append((pre + "width", j, np_, None,
                         ("tree", R.edit(x, np_, lambda n: dict(n, s=["s" if sg else "u", w + 1, iv], i=0)))))
-            out.append(("init", j, np_, None, ("tree", R.edit(x, np_, lambda n: dict(n, i=1 - n["i"])))))
-            if dirs[np_] == "i":
+            out.append((pre + "init", j, np_, None, ("tree", R.edit(x, np_, lambda n: dict(n, i=1 - n["i"])))))
+            if dirs[np_] == "i" and np_ in driven:
                 out.append(("second-output", j, np_, None,
                             ("tree", R.edit(x, np_, lambda n: dict(n, f="i" if n["f"] == "o" else "o")))))
         for p, d, w, sg, iv in R.leaves(x):
-            out.append(("obj-width", j, p, None, ("obj", ("signal", w + 1, sg, iv))))
-            out.append(("obj-init", j, p, None, ("obj", ("signal", w, sg, to_shape(iv + 1, w, sg)))))
-            if d == "i":
+            is_driven = R.name_path(p) in driven
+            if only_idle and is_driven:
+                continue
+            out.append((pre + "obj-width", j, p, None, ("obj", ("signal", w + 1, sg, iv))))
+            out.append((pre + "obj-init", j, p, None, ("obj", ("signal", w, sg, to_shape(iv + 1, w, sg)))))
+            if d == "i" and is_driven:
                 out.append(("const-differs", j, p, None, ("obj", ("const2", w, sg, iv))))
                 out.append(("const-vs-signal", j, p, None, ("obj", ("const1", w, sg, iv))))
     return out
 
 
-EXPECT_CONNECTION_ERROR = {"missing", "width", "init", "second-output", "obj-width", "obj-init", "const-differs", "const-vs-signal"}
+EXPECT_CONNECTION_ERROR = {"missing", "width", "init", "second-output", "obj-width", "obj-init", "const-differs", "const-vs-signal",
+                           "idle-width", "idle-init", "idle-obj-width", "idle-obj-init"}
 
 
 def run_corruption(xs, modes, cor, base_ifaces):
@@ -552,6 +594,9 @@ def part_corrupt(tree, out, bases):
         return
     for vname in bases:
         k, pattern, modes, _ = VARIATIONS[vname]
+        idle = pattern.startswith("idle")
+        if idle and len(R.port_dirs(tree)) < IDLE_MIN_PORTS:
+            continue
         xs = derive(tree, k, pattern)
         try:
             m = Module()
@@ -560,7 +605,7 @@ def part_corrupt(tree, out, bases):
         except Exception:
             out.add("corruption_bases_skipped_connect_fails")     # reported by part_connect
             continue
-        for cor in corruptions(xs):
+        for cor in corruptions(xs, only_idle=idle):
             kind = cor[0]
             out.add("evaluations")
             out.add("corruptions")
@@ -627,7 +672,7 @@ def check_trees(task):
         if "corrupt" in opts["parts"]:
             part_corrupt(tree, out, opts["bases"])
         if "meta" in opts["parts"] and len(R.node_paths(tree)) <= opts.get("meta_max_members", 99):
-            part_meta(tree, out, opts.get("meta_both", True))
+            part_meta(tree, out, opts.get("meta_both", True) or len(tree) == 1 or any(n["k"] == "s" for _, n in tree))
     return out.result()
 
 
@@ -673,8 +718,9 @@ def run(rep):
     rep.setcov("space_hash", hashlib.sha1("\n".join(sorted(seen)).encode()).hexdigest())
     opts = {"parts": ["sig", "connect", "corrupt", "meta"],
             "variations": QUICK_VARS if rep.quick else list(VARIATIONS),
-            "bases": ["k2:T+T.flip"] if rep.quick else ["k2:T+T.flip", "k3:rr", "k2:T+flipped(T)"],
-            "all_perm_sims": not rep.quick, "meta_both": True, "meta_max_members": rep.pick(3, 99)}
+            "bases": ["k2:T+T.flip", "k2:idle-odd"] if rep.quick else
+            ["k2:T+T.flip", "k3:rr", "k2:T+flipped(T)", "k2:idle-odd", "k3:idle-even", "k2:idle-even"],
+            "all_perm_sims": not rep.quick, "meta_both": not rep.quick, "meta_max_members": rep.pick(2, 99)}
     # heavier trees first would need a cost model; interleave instead
     tasks = [(ch, opts) for ch in chunks(trees, 12)]
     tasks = rotate(tasks, rep.seed)
@@ -691,12 +737,16 @@ def run(rep):
                           "attribute_family": {k: [list(d) for d in v] for k, v in attr_dims.items()},
                           "port alphabet": "flow x dims x {1, signed(2), range(3), lib.enum(unsigned(2)), StructLayout(w=3)} x {default, non-zero init}",
                           "tuple variations": opts["variations"], "corruption bases": opts["bases"],
-                          "metadata: trees with at most this many members (all levels)": opts["meta_max_members"]})
+                          "metadata: trees with at most this many members (all levels)": opts["meta_max_members"],
+                          "metadata of sig.flip() too": "all trees" if opts["meta_both"] else
+                          "trees with one member or with a signature member (not flat two-port signatures)"})
     rep.setcov("rule", "every signature tree inside `bounds` (unordered member pairs, names/insertion order alternating; port "
                "shape/init by rotation in the structural families, full product in the attribute family); per tree: double "
                "flip, member- and leaf-level flatten vs an independent walk for sig / sig.flip(), compliance of create() along "
                "3 routes; every listed tuple variation connected, statement map compared with the oracle, simulated with every "
-               "value of every output leaf, every argument permutation + keyword form; every single-point corruption (missing "
+               "value of every output leaf, every argument permutation + keyword form; idle-* tuples where every second port member is "
+               "an input on ALL interfaces (no statement for it, it keeps its init in simulation, and each width / init "
+               "corruption of it, signature- and object-level, must still raise ConnectionError); every single-point corruption (missing "
                "member, width, init, second output, constants, object-level width/init, dimensions) of every member / leaf of "
                "every interface; component metadata of sig and sig.flip() compared with the expected document and the "
                "published schema. non-trivial = tree has a signature member or an array dimension")
@@ -705,7 +755,9 @@ def run(rep):
     for key in ("signatures", "tuples", "connect_accepted", "connect_rejected", "simulations", "permutations",
                 "leaf_follow_checks", "leaf_idle_checks", "leaves_flattened", "constant_leaves", "metadata_documents",
                 "metadata_leaves", "corrupt_missing", "corrupt_width", "corrupt_init", "corrupt_second-output",
-                "corrupt_const-differs", "corrupt_const-vs-signal", "corrupt_obj-width", "corrupt_obj-init", "corrupt_dims"):
+                "corrupt_const-differs", "corrupt_const-vs-signal", "corrupt_obj-width", "corrupt_obj-init", "corrupt_dims",
+                "idle_tuples", "idle_leaves", "corrupt_idle-width", "corrupt_idle-init", "corrupt_idle-obj-width",
+                "corrupt_idle-obj-init"):
         rep.require(rep.cov.get(key, 0) > 0, f"{key} never exercised")
     rep.require(rep.cov["trees_depth3"] > 0, "no tree with two nested signature levels")
     rep.assume("the statement map is read from Fragment.statements of the module passed to connect(); simulation uses the public "
@@ -714,7 +766,8 @@ def run(rep):
 
 def replay(payload):
     tree = R.norm(payload["tree"])
-    opts = {"parts": [payload["part"]], "variations": list(VARIATIONS), "bases": ["k2:T+T.flip", "k3:rr", "k2:T+flipped(T)"],
+    opts = {"parts": [payload["part"]], "variations": list(VARIATIONS),
+            "bases": ["k2:T+T.flip", "k3:rr", "k2:T+flipped(T)", "k2:idle-odd", "k3:idle-even", "k2:idle-even"],
             "all_perm_sims": True, "meta_both": True}
     res = check_trees(([tree], opts))
     return [v["what"] for v in res["violations"] if v["sig"] == payload["sig"]]
